@@ -4,7 +4,7 @@ WS = [" ", "\n", "\n    ", "\t", "\r\n", "  ", "\n\n"]
 COMMENTS = ["/* c */", "// note\n", "/* éè \U0001F388 */", "//ü\n", "/* multi\nline */", "//\r\n"]
 
 
-def relayout(rng, text, crlf=False, comments=True, final_newline=None):
+def relayout(rng, text, crlf=False, comments=True, final_newline=None, comment_rate=0.15):
     out = []
     i = 0
     n = len(text)
@@ -12,7 +12,7 @@ def relayout(rng, text, crlf=False, comments=True, final_newline=None):
         c = text[i]
         if c == " " and i > 0 and text[i - 1] in ";{},=" or (c == " " and i + 1 < n and text[i + 1] in "}="):
             w = rng.choice(WS)
-            if comments and rng.random() < 0.15:
+            if comments and rng.random() < comment_rate:
                 w = w + rng.choice(COMMENTS) + rng.choice(WS)
             out.append(w)
         elif c == "\n":
